@@ -114,6 +114,8 @@ def run(rep, tier, seed, model_ok=True, effort=1):
             rep.mismatch("bump_chain model differs from implementation", input=dict(chain=chains[i]))
         rep.corr_errors += errs
     rep.exhaustive = True
+    from . import libcorr
+    libcorr.decimal_stream(rep, common.rng(seed, "c17-dec"), (200 if tier == "quick" else 3000) * effort, model_ok=model_ok)
 
 
 def search(rep, tier, seed, effort=2):
